@@ -429,8 +429,13 @@ pub fn cmd_explore(opt: &HashMap<String, String>) -> i32 {
 
     // ladder: every fill level n up to a bound, one step over a generic alphabet
     if !no_seeds && !fault_only && !opt.contains_key("no-ladder") && !verdict_reached(&phases) {
-        let ladders: Vec<(HK, usize)> = if thorough { vec![(HK::Spread, 1200), (HK::Sip, 600), (HK::Const, 128), (HK::SameTag, 600), (HK::SamePos, 64)] } else { vec![(HK::Spread, 300), (HK::Sip, 130), (HK::Const, 48)] };
-        for (li, (hk, n_max)) in ladders.into_iter().enumerate() {
+        // (hasher, largest n, depth)
+        let ladders: Vec<(HK, usize, usize)> = if thorough {
+            vec![(HK::Spread, 1200, 1), (HK::Sip, 600, 1), (HK::Const, 128, 1), (HK::SameTag, 600, 1), (HK::SamePos, 64, 1), (HK::Spread, 160, 2), (HK::Const, 40, 2), (HK::Sip, 64, 3)]
+        } else {
+            vec![(HK::Spread, 300, 1), (HK::Sip, 130, 1), (HK::Const, 48, 1), (HK::Spread, 72, 2), (HK::Const, 20, 2)]
+        };
+        for (li, (hk, n_max, ldepth)) in ladders.into_iter().enumerate() {
             if verdict_reached(&phases) {
                 break;
             }
@@ -440,7 +445,7 @@ pub fn cmd_explore(opt: &HashMap<String, String>) -> i32 {
             let phase_no = 500 + li as u64;
             let eo = ExploreOpts {
                 threads,
-                max_depth: 1,
+                max_depth: ldepth,
                 max_states: 30_000_000,
                 wall_cap_s: wall_cap,
                 state_opts: Some(so),
@@ -455,7 +460,7 @@ pub fn cmd_explore(opt: &HashMap<String, String>) -> i32 {
             let alpha_len = lalpha.len();
             let mut ex = Explorer::new(&ctx_l, lroots.clone(), lalpha);
             let result = ex.run(&eo);
-            phases.push(Phase { name: format!("ladder: n = 0..={} fresh insertions ({}), natural and requested capacity, one step", n_max, hk.name()), result, roots: lroots, alpha_len, nkeys, fault_props: 0, u: u.clone() });
+            phases.push(Phase { name: format!("ladder: n = 0..={} fresh insertions ({}), natural and requested capacity, all sequences of <= {} steps", n_max, hk.name(), ldepth), result, roots: lroots, alpha_len, nkeys, fault_props: 0, u: u.clone() });
         }
     }
 
@@ -850,7 +855,8 @@ pub fn cmd_replay(opt: &HashMap<String, String>) -> i32 {
             }
         }
         (_, Some(op)) => {
-            let t = run_transition(&ctx, &cfg, &hist, op, None, &mut st);
+            let ref_pre = crate::refmodel::replay(&u, (vec![], cfg.limit), &hist);
+            let t = run_transition_h(&ctx, &cfg, &hist, op, None, ref_pre.as_ref(), &mut st);
             if let Some(m) = t.machinery {
                 eprintln!("MACHINERY ERROR: {m}");
                 return 2;
